@@ -223,6 +223,36 @@ theorem good_handle : ∀ (fuel : Nat),
           obtain ⟨hp, hn⟩ := h3 ev hev id' hid'
           exact ⟨hp, m, List.mem_cons_self, hn⟩
 
+/-! ### a waiter is closed at most once (closing a closed channel panics) -/
+
+theorem notifyAcks_count (id : Nat) : ∀ (ids acks : List Nat),
+    ((notifyAcks acks ids).2.count (Ev.ack id)) ≤ acks.count id := by
+  intro ids
+  induction ids with
+  | nil => intro acks; simp [notifyAcks]
+  | cons i is ih =>
+    intro acks
+    simp only [notifyAcks]
+    split
+    · rename_i hc
+      have hmem : i ∈ acks := by simpa using hc
+      simp only [List.count_cons]
+      have h1 := ih (acks.erase i)
+      by_cases hid : i = id
+      · subst hid
+        have : (acks.erase i).count i = acks.count i - 1 := by
+          rw [List.count_erase_self]
+        have hpos : 0 < acks.count i := List.count_pos_iff.mpr hmem
+        simp only [beq_self_eq_true, if_true]
+        omega
+      · have hne : (Ev.ack i == Ev.ack id) = false := by
+          simp only [beq_eq_false_iff_ne, ne_eq, Ev.ack.injEq]; exact hid
+        have : (acks.erase i).count id = acks.count id := by
+          rw [List.count_erase_of_ne (Ne.symm hid)]
+        simp only [hne, Bool.false_eq_true, if_false]
+        omega
+    · exact ih acks
+
 /-! ### an rpc_error is never handed to a caller as a result body -/
 
 /-- No `result` notification carries a payload that starts with the rpc_error type id. -/
